@@ -229,19 +229,33 @@ struct PkgEngine : Engine {
 				HASH_ITER(hh, e->asset_hash, a, tmp) {
 					Json j = Json::object();
 					j["url"] = std::string(a->url ? a->url : ""); j["path"] = std::string(a->asset_path ? a->asset_path : "");
-					bool opened = false, ok = false; std::string delivered;
+					bool opened = false, ok = false, never_opened = false; std::string delivered;
 					if (dir && a->url) {
 						std::string full = a->url[0] == '/' ? std::string(a->url) : std::string(dir) + (dir[strlen(dir) - 1] == '/' ? "" : "/") + a->url;
 						bool tl = false;
 						std::string norm = simfs_normalize(full, &tl);
 						int want = nth_of_path[norm]++, seen = 0;
 						for (auto & rec : g_sim.open_log) if (rec.path == norm) { if (seen++ == want) { opened = true; ok = rec.ok; delivered = rec.delivered; } }
+						if (!opened) {
+							// the package builder never tried to read this asset: ask the file layer what an attempt would have delivered
+							// (the oracle then expects the member like for any other readable asset)
+							never_opened = true;
+							FILE * pf = simfs_fopen(full.c_str(), "r");
+							if (pf) {
+								char buf[4096]; size_t n;
+								while ((n = fread(buf, 1, sizeof buf, pf)) > 0) delivered.append(buf, n);
+								ok = !ferror(pf);
+								fclose(pf);
+							}
+							opened = true;
+							probes["asset_never_opened_by_library"]++;
+						}
 					}
 					// scan_file strips a leading BOM from everything it reads
 					if (delivered.compare(0, 3, "\xef\xbb\xbf") == 0) delivered.erase(0, 3);
 					if (delivered.compare(0, 2, "\xef\xff") == 0) delivered.erase(0, 2);
 					if (delivered.compare(0, 2, "\xff\xfe") == 0) delivered.erase(0, 2);
-					j["opened"] = opened; j["ok"] = ok; j["delivered"] = delivered;
+					j["opened"] = opened; j["ok"] = ok; j["delivered"] = delivered; if (never_opened) j["never_opened"] = true;
 					at.push(j);
 					assets_total++;
 					if (opened && !ok) probes["asset_missing_or_unopenable"]++;
